@@ -46,6 +46,12 @@ CHECKS = {
  "C15": dict(cat="model_checking", ref="5.15 and 3.6", tech="stateless model checking under a -race build: schedules enumerated by the gomc scheduler, ThreadSanitizer as the per-execution oracle with scheduler hand-offs hidden and modelled happens-before edges announced",
    text="Eight concurrent API workloads (all call types, cancellations, configuration creation vs pool readers, shared And/Except operands, crash+restart, Close during traffic, Close vs re-dial, concurrently streaming released handlers) are explored within the deviation bound with the harness built with -race; the scheduler's own hand-offs are wrapped in RaceDisable so they create no happens-before edges, and every modelled primitive announces exactly the edges the Go memory model gives it, so the detector reports the pairs of accesses the library leaves unordered on every explored schedule. A report counts when both stacks contain a library frame.",
    note="Trusted base: gomc runtime incl. its race annotations (RaceAcquire/RaceRelease per primitive), ThreadSanitizer (bounded per-cell history), fakegrpc; module verif is compiled without race instrumentation."),
+ "C16": dict(cat="model_checking", ref="5.16", engine="gencheck", tech="exhaustive small-scope enumeration of service definitions over the option lattice (requests synthesised from descriptors), plugin built from the working tree, legality reference model, go build of every emitted package, controlled map-iteration orders",
+   text="Every one of the 512 option combinations x 4 message shapes as a single-method service, all 484 ordered pairs of legal combinations with shared and distinct types, reserved and unusual identifiers, run through the plugin built from the working tree; legal input must be accepted and its output must compile together with protoc-gen-go's output against /repo, documented-illegal input and reserved names must end in a diagnostic (never a Go panic, never silence), the rest must be rejected or compile; output must be byte-identical across repeated runs and across a family of map iteration orders imposed at the generator's map range sites.",
+   note="Trusted base: descriptor synthesis and the legality model in /verif/cmd/gencheck/c16.go (transcribed from doc/method-options.md), protoc-gen-go from the module cache, the Go compiler; protoc itself is not installed, so its own validation of .proto syntax is not exercised."),
+ "C17": dict(cat="model_checking", ref="5.17", engine="gencheck+gomc", tech="exhaustive comparison of every committed generated file with its regeneration (comment-free AST equality), static binding analysis of every stub against the descriptor, and execution of every generated call variant under the gomc harness",
+   text="All 20 committed *_gorums.pb.go files and template_static.go are regenerated with the plugin built from the working tree (descriptors recovered from the committed .pb.go files) and compared as comment-free ASTs; for every method of every service, in committed and regenerated code, the stub's method literal, server registration, runtime entry point, receiver, per-node function and ServerStream flag are checked against the descriptor; each of the generated zorums call variants is executed against puppet servers and must reach the handler its descriptor names with the right payload and result type. The harness of all other checks is compiled against the regenerated stubs.",
+   note="Trusted base: the descriptor embedded in each committed .pb.go is taken as the proto definition; AST normalisation by go/printer; for the dynamic half the gomc runtime and fakegrpc."),
 }
 
 NOT_YET = {}
